@@ -535,7 +535,7 @@ pub fn run(rec: &mut Rec) {
     // deviation targets: the first K dynamic instances of every distinct library loop (join site)
     let per_site = if rec.thorough() { 4 } else { 1 };
     let pools: Vec<usize> = if rec.thorough() { vec![2, 3, 4, 5] } else { vec![2, 3] };
-    rec.scope(format!("schedule exploration under the simulated rayon scheduler: {} items x simulated pool sizes {:?}; default tape, then every tape deviating at one join ({} joins; the first {} dynamic instances of every distinct library loop - thorough: plus the first instance of every loop of the dependencies - in every phase (operation) of the flow) by each of the 7 non-default (order, migrated-a, migrated-b) choices{}", ITEMS.len(), pools, if rec.thorough() { "all" } else { "library-owned" }, per_site, if rec.thorough() { "; pairs of owned joins (k = 2)" } else { "" }));
+    rec.scope(format!("schedule exploration under the simulated rayon scheduler: {} items x simulated pool sizes {:?}; default tape, then every tape deviating at one join ({} joins; the first {} dynamic instances of every distinct library loop - thorough: plus, for the pool of 2, the first instance of every loop of the dependencies with the choices {swap, both migrated, all} - in every phase (operation) of the flow) by each of the 7 non-default (order, migrated-a, migrated-b) choices{}", ITEMS.len(), pools, if rec.thorough() { "all" } else { "library-owned" }, per_site, if rec.thorough() { "; pairs of owned joins (k = 2, pool of 2)" } else { "" }));
     for item in ITEMS.iter() {
         let mut want: Option<BTreeMap<String, String>> = None;
         for threads in pools.iter().copied() {
@@ -579,12 +579,12 @@ pub fn run(rec: &mut Rec) {
             let mut seen_sites: BTreeMap<u64, usize> = BTreeMap::new();
             let mut targets: Vec<usize> = Vec::new();
             for i in 0..n {
-                if !(owned0[i] || rec.thorough()) {
+                // joins of the dependencies: thorough tier, simulated pool of 2 only, first instance per site and phase
+                if !(owned0[i] || (rec.thorough() && threads == 2)) {
                     continue;
                 }
                 let c = seen_sites.entry(sites0[i]).or_insert(0);
                 *c += 1;
-                // joins of the dependencies (thorough tier only): the first instance per site and phase
                 let limit = if owned0[i] { per_site } else { 1 };
                 if *c <= limit {
                     targets.push(i);
@@ -608,6 +608,10 @@ pub fn run(rec: &mut Rec) {
                 };
                 // a join has 8 alternatives (order x two migrated flags); a scope pick as many as jobs are pending
                 for v in 1u8..arity0[i].min(8).max(2) {
+                    // dependency joins: the order swap, "both halves migrated" and all three bits
+                    if !owned0[i] && !(v == 1 || v == 6 || v == 7) {
+                        continue;
+                    }
                     let mut tape = vec![0u8; i];
                     tape.push(v);
                     set_extended(false);
@@ -626,7 +630,7 @@ pub fn run(rec: &mut Rec) {
                 // k = 2 over owned joins (thorough)
                 // k = 2: pairs over the FIRST dynamic instance of every owned join site
                 let first_of_site = |x: usize| -> bool { owned0[x] && sites0[..x].iter().zip(owned0[..x].iter()).all(|(s, o)| !(*o && *s == sites0[x])) };
-                if rec.thorough() && first_of_site(i) {
+                if rec.thorough() && threads == 2 && first_of_site(i) {
                     for j in targets.iter().copied().filter(|j| *j > i && first_of_site(*j)) {
                         for v in [1u8, 4, 7] {
                             for u in [1u8, 2, 7] {
